@@ -198,6 +198,10 @@ def runHolds (caseToks obsToks : List String) : String :=
       boolStr (holdsBridge c.src c.tgt o && holdsNoSpontaneousClose c.src c.tgt c.sw c.tw o && (st != "1" || cds == "1")
         && (cds == "1" || cds == "0"))
     | _, _, _ => "false"
+  | "bridgereal" :: rest =>
+    match parseBridge rest, parseBridgeObs obsToks with
+    | some c, some o => boolStr (holdsBridge c.src c.tgt o && holdsNoSpontaneousClose c.src c.tgt c.sw c.tw o)
+    | _, _ => "false"
   | "bridge" :: rest =>
     match parseBridge rest, parseBridgeObs obsToks with
     | some c, some o => boolStr (holdsBridge c.src c.tgt o && holdsNoSpontaneousClose c.src c.tgt c.sw c.tw o)
